@@ -50,10 +50,12 @@ var accTracked = map[string][]string{
 	"pkg/codecs":  {"H264", "H265", "AV1", "VP9", "MPEG4Audio", "Opus"},
 }
 
-// mutex fields → lock name. muxerStream.mutex must be initialised with &m.mutex (checked below).
+// mutex fields → lock name. muxerStream.mutex / muxerSegmenter.mutex are pointers: every literal of these
+// structs must initialise them with &m.mutex (checked below).
 var accLockOf = map[string]string{
 	"Muxer.mutex":       "M",
 	"muxerStream.mutex": "M",
+	"muxerSegmenter.mutex": "M", // exists only once F14a is repaired (repo_patches/fix-F14a.diff)
 	"muxerServer.mutex": "S",
 	"fileDisk.mutex":    "F",
 }
@@ -370,7 +372,11 @@ func (x *accX) checkStreamMutexAlias() {
 			if !ok {
 				return true
 			}
-			if x.trackedStructName(p, p.info.TypeOf(cl)) != "muxerStream" {
+			tn := x.trackedStructName(p, p.info.TypeOf(cl))
+			if tn != "muxerStream" && tn != "muxerSegmenter" {
+				return true
+			}
+			if _, has := x.fieldTyp[tn+".mutex"]; !has {
 				return true
 			}
 			okLit := false
@@ -390,9 +396,11 @@ func (x *accX) checkStreamMutexAlias() {
 				}
 			}
 			if !okLit {
-				x.fail(p, cl, "muxerStream literal does not set mutex: &m.mutex (the lock alias M is no longer justified)")
+				x.fail(p, cl, "%s literal does not set mutex: &m.mutex (the lock alias M is no longer justified)", tn)
 			}
-			found++
+			if tn == "muxerStream" {
+				found++
+			}
 			return true
 		})
 	}
